@@ -55,11 +55,17 @@ CLAIMED = {
         category='proof',
         text='Per-solver flag bookkeeping: AdjEnvelope::lindep(i) is true iff the pivot of row invp(i) of the factorised envelope is zero '
              'under an arbitrary symbolic permutation (caller numbering), defect() is the number of zeroed pivots (Envelope::cholDec '
-             'contract, all rows); AdjCholDec/AdjGSO/AdjSVD lindep/defect answer only after solve(); ICGS: lindep_columns is rebuilt by '
-             'every icgs1, the regularisation subset is exactly the list last given, error() reports a subset that does not resolve the '
-             'defect; SVD::min_subset_x raises BadRegularization iff defect > number of constrained unknowns; LocalNetwork::null_space '
-             'removes exactly the owner of the first flagged unknown with the matching reason; LocalNetwork::singular_coords removes a free '
-             'point iff its x/y columns are (anti)parallel or one is zero (symmetric in the sign of the dot product, no NaN). KNOWN FINDING '
+             'contract, all rows); AdjCholDec/AdjGSO/AdjSVD lindep/defect answer only after solve(); AdjCholDec::solve: one iteration of '
+             'the symmetric-pivoting loop keeps perm a permutation, moves the selected node to the pivot position, keeps every '
+             'mat(perm(.),perm(.)) index in range and sets nullity = N - (accepted pivots) (thorough, unbounded); lindep(n) is true iff '
+             "nullity > 0 and the position of n in the pivot order is beyond N - nullity, n in the CALLER's numbering, and the flagged set "
+             'is exactly perm({N0+1..N}) (that this set has nullity elements is the pigeonhole step, confirmed by counting for N <= 3 in '
+             'the bounded whole-function check, which also decides invp(perm(k)) = k); every later perm/invp/N0-indexed access of solve() '
+             'is in range; BadRegularization is raised only with is_solved set and x = x0; ICGS: lindep_columns is rebuilt by every icgs1, '
+             'the regularisation subset is exactly the list last given, error() reports a subset that does not resolve the defect; '
+             'SVD::min_subset_x raises BadRegularization iff defect > number of constrained unknowns; LocalNetwork::null_space removes '
+             'exactly the owner of the first flagged unknown with the matching reason; LocalNetwork::singular_coords removes a free point '
+             'iff its x/y columns are (anti)parallel or one is zero (symmetric in the sign of the dot product, no NaN). KNOWN FINDING '
              "(printed, not suppressed elsewhere): SVD::lindep(i) tests the i-th singular value. 'Truly linearly dependent' (numerical "
              'rank), non-spanning subsets and identical removals across algorithms are not decided.',
         design_ref='DESIGN.md 5 (C20)',
@@ -139,9 +145,14 @@ CLAIMED = {
              '(min_x, reset_UWV) are memory-safe; CovMat::cholDec / CovMat::solve / SymMat::cholDec / SymMat::solve (thorough) are '
              'memory-safe, framed and terminate for ALL dimensions and band widths (unbounded loop contracts over opaque row-offset tables '
              'whose closed forms are proved by z3), cholDec refuses exactly the non-positive (or NaN) pivots, solve raises BadRank for a '
-             'right-hand side of the wrong dimension. Bounded only: CovMat::cholDec/solve exact on dim <= 3 (thorough), reset among shapes '
-             '<= 8 (quick companion). SVD reconstruction, Moore-Penrose conditions, inv(A)A = I are not decided (floating point, '
-             'iterative).',
+             'right-hand side of the wrong dimension. Mat::invert (Gauss-Jordan with full pivoting): every loop body is under contract '
+             'block by block for symbolic N <= 2^15 -- the row/column index vectors stay permutations through the pivot swaps, the pivot is '
+             'the largest remaining element, Singular is raised exactly for |pivot| <= tol, the permutation-undo steps keep perm/inv_perm '
+             'mutually inverse, all accesses in range -- but the check that COMPOSES the blocks for the whole function runs out of memory '
+             'and is not registered (partial proof, stated). Bounded only: inv(A) A = I EXACTLY on exact-arithmetic inputs A = P U for ALL '
+             'permutations P, d <= 3 (quick; six of the 24 for d = 4 thorough); CovMat::cholDec/solve exact on dim <= 3 (thorough); reset '
+             'among shapes <= 8 (quick companion). SVD reconstruction, Moore-Penrose conditions, inv(A)A = I are not decided (floating '
+             'point, iterative).',
         design_ref='DESIGN.md 5 (C15)',
         note=TRUST + '; libc memcpy enters through an assumed contract (regions valid and disjoint, contents copied at a ghost index)',
         technique='contract-based deductive verification (CBMC dfcc contracts; z3 integer lemmas on the extracted index expressions)'),
